@@ -83,8 +83,9 @@ def step (st : St) (l : String) : St × String :=
     | none => (st, "nocar")
     | some c =>
       let skip := skip.toNat!
-      -- `data[1]` on a node with fewer than two bytes: index out of range in the reading goroutine
-      if !(c.secs.drop skip).all (fun s => decide (2 ≤ s.data.length)) then (st, "panic")
+      -- a node with fewer than two bytes: `iplddecoders.GetKind` fails and `Run` returns that error (fix 74d949c;
+      -- before it `data[1]` panicked in the reading goroutine)
+      if !(c.secs.drop skip).all (fun s => decide (2 ≤ s.data.length)) then (st, "err")
       else
         let ig := parseKinds ig
         let k := UInt8.ofNat k.toNat!
